@@ -38,7 +38,7 @@ use simplicity::{BitIter, BitWriter};
 use std::sync::OnceLock;
 
 pub const SPEC: Spec = Spec {
-    rule: "exhaustive enumeration (fixed hook) of every jet of Core / Elements / Bitcoin (`ALL`) and of every foreign function declaration (extern blocks, #[no_mangle] exports, callback type aliases) and foreign static found by a textual parser under /repo/simplicity-sys/src; plus a few hundred random re-checks of random members of the same sets. Per jet: encode->decode identity with exact bit consumption (also with trailing junk), code prefix-free against all other codes of the family, name parses back and is unique, type names build and agree on bit width / TMR; Core: Elements namesake has the same type names and code = 0 ++ Core code; Elements: one-node program through the C decoder, C type inference and analyseBounds, C CMR / source+target TMR and bit size / node cost / cost bound (100 + cost) equal the Rust table; Bitcoin: codes, names, type names only (cmr/cost never called). Per declaration: arity and per-parameter / return type compatibility against every C prototype/definition/typedef of the same symbol found under depend/** (WRAP_ macro expanded textually), with integer widths taken from the C sizeof constants of this target; unparsed or unknown types are counted, never reported. Every jet / declaration case is non-trivial; distinct by (mode, family, index).",
+    rule: "exhaustive enumeration (fixed hook) of every jet of Core / Elements / Bitcoin (`ALL`) and of every foreign function declaration (extern blocks, #[no_mangle] exports, callback type aliases) and foreign static found by a textual parser under /repo/simplicity-sys/src; plus a few hundred random re-checks of random members of the same sets. Per jet: encode->decode identity with exact bit consumption (also with trailing junk), code prefix-free against all other codes of the family, name parses back and is unique, type names build and agree on bit width / TMR; Core: Elements namesake has the same type names and code = 0 ++ Core code; Elements: one-node program through the C decoder, C type inference and analyseBounds, C CMR / source+target TMR and bit size / node cost / cost bound (100 + cost) equal the Rust table; Bitcoin: codes, names, type names only (cmr/cost never called). Per declaration: arity and per-parameter / return type compatibility against every C prototype/definition/typedef of the same symbol found under depend/** (WRAP_ macro expanded textually), with integer widths taken from the C sizeof constants of this target; unparsed or unknown types are counted, never reported. Per #[repr(C)] struct passed by pointer (raw Elements buffer / output / input / transaction / tap env, txEnv, frameItem, bitstream, bitstring, combinator_counters, sha256_midstate): number of fields, per-position layout compatibility (scalar width, pointer vs value, nested by-value structs recursively; a pointer field with another pointee is only counted) and no two positions that carry each other's C field name. Every jet / declaration case is non-trivial; distinct by (mode, family, index).",
     design_ref: "§6 C14",
     max_len: 8,
     quick_cases: 200,
@@ -119,6 +119,11 @@ fn tables() -> &'static Result<Tables, String> {
     T.get_or_init(decls::load)
 }
 
+fn struct_pairs() -> &'static Result<Vec<decls::StructPair>, String> {
+    static T: OnceLock<Result<Vec<decls::StructPair>, String>> = OnceLock::new();
+    T.get_or_init(decls::load_struct_pairs)
+}
+
 fn widths() -> Widths {
     use simplicity::ffi::ffi as f;
     use std::mem::size_of;
@@ -159,7 +164,8 @@ fn fixed(_tier: Tier, emit: &mut dyn FnMut(&[u8])) {
     };
     // (mode, family byte, size); the five sets are emitted round-robin so that every worker
     // (and the evidence samples, which are the first cases of the first workers) sees all kinds
-    let sets: [(u8, u8, usize); 5] = [(0, 0, Core::ALL.len()), (0, 1, Elements::ALL.len()), (0, 2, Bitcoin::ALL.len()), (1, 0, n_fns), (1, 1, n_statics)];
+    let n_structs = struct_pairs().as_ref().map(|v| v.len()).unwrap_or(0);
+    let sets: [(u8, u8, usize); 6] = [(0, 0, Core::ALL.len()), (0, 1, Elements::ALL.len()), (0, 2, Bitcoin::ALL.len()), (1, 0, n_fns), (1, 1, n_statics), (2, 0, n_structs)];
     let longest = sets.iter().map(|s| s.2).max().unwrap_or(0);
     for i in 0..longest {
         for (mode, fam, n) in sets {
@@ -173,7 +179,7 @@ fn fixed(_tier: Tier, emit: &mut dyn FnMut(&[u8])) {
 pub fn case(cx: &mut Case) -> CaseResult {
     let mode = cx.src.u8();
     let (mode, fam, idx) = match mode {
-        0 | 1 => {
+        0 | 1 | 2 => {
             let fam = cx.src.u8();
             let idx = cx.src.u16() as usize;
             (mode, fam, idx)
@@ -199,6 +205,11 @@ pub fn case(cx: &mut Case) -> CaseResult {
             }
         }
     };
+    if mode == 2 {
+        cx.fp.write(&[2, 0]);
+        cx.fp.write_u64(idx as u64);
+        return struct_case(cx, idx);
+    }
     if mode == 0 {
         let fam = fam.min(2);
         cx.fp.write(&[0, fam]);
@@ -756,4 +767,69 @@ mod survey {
             println!("static [{}] {}: {} <{}>  C: {:?}", i, s.symbol, s.ty, s.file, vs);
         }
     }
+}
+
+// ------------------------------------------------------------------------------------------
+// struct layouts
+
+/// Field-by-field comparison of a `#[repr(C)]` struct that crosses the boundary by pointer with
+/// the C struct it stands for: number of fields, per-position type compatibility (the table of
+/// the declaration comparison; by-value nested structs recursively), and no crosswise names (two
+/// positions of which each carries the name of the other's C field).  Anything not understood is
+/// counted, never reported.
+fn compare_fields(cx: &mut Case, path: &str, rust: &[(String, String)], c: &[decls::CField], w: &Widths, depth: usize) -> Result<(), String> {
+    if rust.len() != c.len() {
+        return Err(format!("{}: Rust declares {} fields ({}), C {} ({})", path, rust.len(), rust.iter().map(|f| f.0.as_str()).collect::<Vec<_>>().join(", "), c.len(), c.iter().map(|f| f.name.as_str()).collect::<Vec<_>>().join(", ")));
+    }
+    for (i, ((rn, rt), cf)) in rust.iter().zip(c).enumerate() {
+        let rt = decls::normalize_rust_field_type(rt);
+        match &cf.ty {
+            decls::CFieldTy::Nested(inner) => {
+                let base = rt.trim();
+                match decls::find_rust_struct(base) {
+                    Some(rf) if depth < 4 => compare_fields(cx, &format!("{}.{}", path, cf.name), &rf, inner, w, depth + 1)?,
+                    _ => {
+                        if decls::parse_rust_type(base).ptr > 0 || matches!(decls::rust_class(base, w), decls::Class::Int { .. } | decls::Class::Bool) {
+                            return Err(format!("{}: field {} (`{}: {}`) is a scalar or pointer where C has a nested struct `{}`", path, i, rn, rt, cf.name));
+                        }
+                        cx.label("struct: nested Rust struct not found (skipped)");
+                    }
+                }
+            }
+            decls::CFieldTy::Decl(d) => match decls::compare(&rt, d, true, w) {
+                Verdict::Compatible(_) => cx.label("struct: field type compatible"),
+                Verdict::Unknown(_) => cx.label("struct: field type not in the table (skipped)"),
+                // a pointer field whose pointee differs has the same layout: counted only
+                Verdict::Mismatch(m) if m.starts_with("different pointee") || m.starts_with("pointer depth differs") => cx.label("struct (note): pointer field with another pointee type (layout unaffected, not asserted)"),
+                Verdict::Mismatch(m) => return Err(format!("{}: field {} (`{}` vs `{}`): {}", path, i, rn, d, m)),
+            },
+        }
+    }
+    // crosswise names
+    for i in 0..rust.len() {
+        for j in (i + 1)..rust.len() {
+            let (ri, rj, ci, cj) = (&rust[i].0, &rust[j].0, &c[i].name, &c[j].name);
+            if !decls::names_related(ri, ci) && !decls::names_related(rj, cj) && decls::names_related(ri, cj) && decls::names_related(rj, ci) {
+                return Err(format!("{}: fields {} and {} are declared crosswise: Rust `{}`, `{}` at the positions of C `{}`, `{}`", path, i, j, ri, rj, ci, cj));
+            }
+        }
+    }
+    Ok(())
+}
+
+fn struct_case(cx: &mut Case, idx: usize) -> CaseResult {
+    let pairs = match struct_pairs() {
+        Ok(p) => p,
+        Err(e) => return Err(harness_error(format!("cannot read the struct definitions: {}", e))),
+    };
+    if pairs.is_empty() {
+        cx.label("struct: no pair found (skipped)");
+        return Ok(());
+    }
+    let p = &pairs[idx.min(pairs.len() - 1)];
+    cx.nontrivial = true;
+    cx.label("struct: repr(C) struct compared field by field with the C struct");
+    cx.set_sample(|| json!({"kind": "struct", "rust": p.rust_name, "c": p.c_name, "rust_file": p.rust_file, "c_file": p.c_file, "rust_fields": p.rust_fields, "c_fields": p.c_fields.iter().map(|f| f.name.clone()).collect::<Vec<_>>()}));
+    let w = widths();
+    compare_fields(cx, &format!("{} / {}", p.rust_name, p.c_name), &p.rust_fields, &p.c_fields, &w, 0)
 }
